@@ -431,9 +431,12 @@ Qed.
 Lemma abs2_op_sound : forall o st st' L Rr, abs2_op o st = Some st' -> Gam2 st L ->
   exists s', do_op Rnum o (L, Rr) = GOk s' /\ Gam2 st' (fst s').
 Proof.
-  intros [col n rows cmp init | m p c | r c cmp thr] st st' L Rr E G.
+  intros [col n rows cmp init | m p c | m p c cmp thr | r c cmp thr] st st' L Rr E G.
   - exact (pivot_sound col n rows cmp init st st' L Rr E G).
   - exact (elim_sound m p c st st' L Rr E G).
+  - (* a skip guard that fires only for a zero multiplier: the same operation *)
+    cbn [abs2_op] in E. destruct (skip_exact cmp thr) eqn:SE; [|discriminate].
+    rewrite (elimskip_equiv m p c cmp thr (L, Rr) SE). exact (elim_sound m p c st st' L Rr E G).
   - exact (scale_sound r c cmp thr st st' L Rr E G).
 Qed.
 
